@@ -370,6 +370,9 @@ class LangServer:
             # If class add members
             if scope.get_type() == CLASS_TYPE_ID and not self.symbol_skip_mem:
                 for child in scope.children:
+                    # Members that come from an INCLUDEd file are lines of that file
+                    if child.file_ast is not file_obj.ast:
+                        continue
                     test_output.append(
                         symbol_json(
                             child.name,
